@@ -109,8 +109,29 @@ func (m *M) corpusScalar(prop string) {
 	}
 	stored := func(v *big.Int) *big.Int { return mulmod(new(big.Int).Mod(v, bigN), rInvN, bigN) }
 	n := 0
+	relevant := map[string]map[string]bool{
+		"C06": {"Mul": true, "Add": true, "Sub": true, "Square": true, "ToMontgomery": true},
+		"C07": {"FromMontgomery": true, "ToMontgomery": true, "Reduce": true},
+		"C14": {"FromMontgomery": true},
+		"C13": {"Equal": true, "IsFEZero": true, "CMove": true, "Selectznz": true, "FromMontgomery": true},
+	}[prop]
 	for _, e := range entries {
 		as := e.arrays()
+		if !relevant[e.Func] || len(as) == 0 {
+			continue
+		}
+		if e.Func != "Reduce" && !(prop == "C07" && e.Func == "ToMontgomery") { // every operand must be a valid stored value
+			bad := false
+			for _, a := range as {
+				bad = bad || a.Cmp(bigN) >= 0
+			}
+			if bad {
+				continue
+			}
+		}
+		if (e.Func == "Mul" || e.Func == "Add" || e.Func == "Sub" || e.Func == "Equal" || e.Func == "CMove" || e.Func == "Selectznz") && len(as) < 2 {
+			continue
+		}
 		if n%20 == 0 {
 			m.reset()
 		}
